@@ -42,6 +42,28 @@ def run(ctx):
                        chanBuf=rnd.choice([0, 256]), leaders=[1], nbrokers=1, abortedReverse=rnd.random() < 0.5)
             scs.append({"name": "txn-markerstart-%d-%s" % (k, iso), "family": "txn-markerstart", "cfg": cfg, "logs": {"0": lg},
                         "consume": [{"part": 0, "start": off}], "expectAll": {"0": True}, "steps": []})
+    # the log start offset (DeleteRecords / retention) lies INSIDE an aborted transaction: the broker still lists the
+    # transaction with its original first offset (below the log start); its remaining records must stay invisible
+    inside = []
+    for l in txn:
+        opened = {}
+        for b in l:
+            if b["ctl"]:
+                f = opened.pop(b["pid"], None)
+                if b["ctl"] == "abort" and f is not None and b["offs"][0] - f >= 2:
+                    inside.append((l, f, b["offs"][0]))
+            elif b["txn"]:
+                opened.setdefault(b["pid"], b["offs"][0])
+    rnd.shuffle(inside)
+    for k, (l, first, marker) in enumerate(inside[:120] if quick else inside[:2500]):
+        lg = cc.add_codec(l, rnd)
+        ls = rnd.randrange(first + 1, marker + 1)
+        for iso in ("rc", "ru"):
+            cfg = dict(version=rnd.choice(["0.11.0.0", "1.0.0", "1.1.0", "2.1.0", "2.3.0", "2.6.0"]), iso=iso,
+                       fetchDefault=rnd.choice([130, 1 << 20]), chanBuf=rnd.choice([0, 256]), leaders=[1], nbrokers=1,
+                       abortedReverse=rnd.random() < 0.5)
+            scs.append({"name": "txn-logstart-%d-%s" % (k, iso), "family": "txn-logstart", "cfg": cfg, "logs": {"0": lg}, "logStart": {"0": ls},
+                        "consume": [{"part": 0, "start": rnd.choice([-2, ls])}], "expectAll": {"0": True}, "steps": []})
     withtx = [l for l in txn if any(b["ctl"] == "abort" for b in l)]
     scs += cc.fault_scenarios(withtx, rnd, 4 if quick else 30, family="txn-faults")
     for s in scs:
